@@ -527,9 +527,9 @@ func (c *Ctx) lockInstance(inst LockInstance) []core.Ob {
 								o.Status, o.Got = core.Violated, "function exits ("+kind+") with the lock still held: every later operation blocks forever"
 							}
 							if helper[fn] {
-								o.Want = "a helper that runs under the caller's lock leaves it held for the caller"
-								if !st.held {
-									o.Status, o.Got = core.Violated, "the helper releases the caller's lock on some path"
+								o.Want = "a helper that runs under the caller's lock hands it back held when it returns (it may release it before panicking)"
+								if !st.held && kind == "return" {
+									o.Status, o.Got = core.Violated, "the helper returns with the caller's lock released on some path"
 								}
 							}
 							if st.deferred && inst.Cond != "" && !waits && (st.pending || st.pendingB) {
@@ -609,7 +609,8 @@ func (c *Ctx) lockInstance(inst LockInstance) []core.Ob {
 		for _, b := range fn.Blocks {
 			for _, in := range b.Instrs {
 				if ci, ok := in.(ssa.CallInstruction); ok && len(fn.Params) > 0 {
-					if op, ok := classifyLockOp(ci.Common(), fn.Params[0]); ok && (op.kind == "lock" || op.kind == "unlock") && op.id == inst.Lock {
+					// (a helper may release the caller's lock on its way to a panic: only taking it disqualifies)
+					if op, ok := classifyLockOp(ci.Common(), fn.Params[0]); ok && op.kind == "lock" && op.id == inst.Lock {
 						return true
 					}
 				}
